@@ -46,11 +46,14 @@ def norm_bytes(v):
 # ---- generic helpers -------------------------------------------------------------------------------
 def uninterp(I, st, key, argv, t, dty, record=True):
     fa = tuple(freeze(st, a) for a in argv)
-    # &mut arguments of unknown functions are havocked
-    for i, a in enumerate(argv):
-        if a is not None and a[0] == 'ref':
-            pass
     term = App(key, *fa)
+    # `&mut` arguments of functions the interpreter does not understand are havocked: whatever was known about the
+    # referenced storage is replaced by an opaque "output of that call", so no later obligation can be discharged from stale knowledge
+    tys = (t or {}).get('_argtys') or []
+    for i, a in enumerate(argv):
+        if a is not None and a[0] == 'ref' and i < len(tys) and tys[i] and tys[i].startswith('&mut '):
+            I.write_res(st, ('cell', a[1], a[2]), App(key + '#out%d' % i, *fa))
+            st.ev('havoc', key, i, span(t))
     if record:
         st.ev('call', key, fa, span(t))
     yield st, term
@@ -77,6 +80,17 @@ def trait_call(I, st, trait, callee, argv, depth, t, dty):
         return
     st.ev('call', key, fa, span(t))
     yield st, App(key, *fa)
+
+
+@model('zeroize::Zeroize::zeroize')
+def m_zeroize(I, st, callee, argv, depth, t, dty):
+    a = argv[0]
+    if a is not None and a[0] == 'ref':
+        old = freeze(st, deref_val(st, a))
+        n = tlen(old)
+        I.write_res(st, ('cell', a[1], a[2]), ('zero', n) if n is not None else App('Zeroized', Sym((callee.get('self_ty') or '?')[:60])))
+        st.ev('zeroize', span(t))
+    yield st, UNIT
 
 
 # ---- identities ----------------------------------------------------------------------------------------
